@@ -944,17 +944,22 @@ class ReadDTCInformation(BaseService):
             if response.service_data.dtc_format not in [Dtc.Format.SAE_J2012_DA_DTCFormat_04, Dtc.Format.SAE_J1939_73]:
                 raise InvalidResponseException(response, "DTCFormatIdentifier returned by the server is not one of the following: SAE_J2012-DA_DTCFormat_04 (4), SAE_J1939-73_DTCFormat(2). Got 0x%02x" % response.service_data.dtc_format)
 
-            if len(remaining_bytes) % 5 != 0:
-                raise InvalidResponseException(response, 'Incomplete response from server. Remaining bytes must be a multiple of 5')
-
             while remaining_bytes:
-                severity = remaining_bytes[0]
-                dtc = Dtc(struct.unpack('>L', b'\x00' + remaining_bytes[1:4])[0])
-                status_of_dtc = Dtc.Status.from_byte(remaining_bytes[4])
-                dtc.severity.set_byte(severity)
-                dtc.status = status_of_dtc
+                if len(remaining_bytes) < 5:
+                    if tolerate_zero_padding and remaining_bytes == b'\x00' * len(remaining_bytes):
+                        break
+                    raise InvalidResponseException(response, 'Incomplete response from server. Remaining bytes must be a multiple of 5')
+
+                if remaining_bytes[0:5] == b'\x00' * 5 and ignore_all_zero_dtc:
+                    pass  # ignore
+                else:
+                    severity = remaining_bytes[0]
+                    dtc = Dtc(struct.unpack('>L', b'\x00' + remaining_bytes[1:4])[0])
+                    status_of_dtc = Dtc.Status.from_byte(remaining_bytes[4])
+                    dtc.severity.set_byte(severity)
+                    dtc.status = status_of_dtc
+                    response.service_data.dtcs.append(dtc)
                 remaining_bytes = remaining_bytes[5:]
-                response.service_data.dtcs.append(dtc)
 
             response.service_data.dtc_count = len(response.service_data.dtcs)
 
